@@ -1271,6 +1271,68 @@ fn probe_coins(arg: u64, sim: &Sim, obs: &Obs, mon: &Monitor) -> ProbeResult {
             }
         }
     }
+    // coin sets at the edges of narrow or summing counters: amounts that are multiples of 2^64, and two
+    // coins whose sum does not fit 128 bits (minted on the fork; the property is about the message kinds)
+    {
+        let big: Vec<Vec<(String, u128)>> = vec![
+            vec![("uhuge".to_string(), 1u128 << 127), ("uvast".to_string(), 1u128 << 127)],
+            vec![("ujunox".to_string(), 1u128 << 64)],
+            vec![("uatom".to_string(), 3 * (1u128 << 64)), ("uhuge".to_string(), 1u128 << 64)],
+        ];
+        for coins in &big {
+            // (a) a non-deposit message by a user
+            if let Some(b) = obs.buckets.first() {
+                let f = sim.fork();
+                for (d, a) in coins {
+                    f.chain.mint(&b.key_owner, d, *a);
+                }
+                let funds: Vec<Fund> = coins.iter().map(|(d, a)| fund(d, *a)).collect();
+                let op = Op::tx(&b.key_owner, m, msgs::remove_bucket(b.key_id), funds);
+                let out = f.apply(&op);
+                r.case(&[b"coins_big", b"remove_bucket", &[out.ok as u8, coins.len() as u8]]);
+                r.fault("attach_coins");
+                r.hit("coins_at_counter_edges");
+                if out.ok {
+                    r.findings.push(Finding::new("C19.coins_kept", "remove_bucket:CoinsAttached", format!("probe: {} succeeded with coins attached", op.short())));
+                }
+            }
+            // (b) a receive hook forwarded by a contract
+            let f = sim.fork();
+            for (d, a) in coins {
+                f.chain.mint(&names.hostile, d, *a);
+            }
+            let inner = msgs::market_receive("user0", 5, &msgs::inner_create_bucket_cw20(999_994));
+            let op = Op::tx("bystander", &names.hostile, msgs::hostile_forward(m, &inner, coins), vec![]);
+            let out = f.apply(&op);
+            r.case(&[b"coins_big", b"receive", &[out.ok as u8, coins.len() as u8]]);
+            r.fault("attach_coins");
+            if out.ok {
+                r.findings.push(Finding::new("C19.coins_kept", "receive:CoinsAttached", "probe: receive called by a contract with coins attached (amounts at counter edges) succeeded".to_string()));
+            }
+        }
+        // a hook that announces zero tokens, with coins: directly by a user and forwarded by a contract
+        for via_contract in [false, true] {
+            let f = sim.fork();
+            let inner = msgs::market_receive("user0", 0, &msgs::inner_create_bucket_cw20(999_993));
+            let op = if via_contract {
+                f.chain.mint(&names.hostile, "ujunox", 50);
+                Op::tx("bystander", &names.hostile, msgs::hostile_forward(m, &inner, &[("ujunox".to_string(), 5)]), vec![])
+            } else {
+                Op::tx("user0", m, inner.clone(), vec![fund("ujunox", 5)])
+            };
+            let before = obs.bal("user0", &Fung::Native("ujunox".into()));
+            if !via_contract && before < 5 {
+                continue;
+            }
+            let out = f.apply(&op);
+            r.case(&[b"coins_zero_amount_hook", &[via_contract as u8, out.ok as u8]]);
+            r.fault("attach_coins");
+            r.hit("coins_on_zero_amount_hook");
+            if out.ok {
+                r.findings.push(Finding::new("C19.coins_kept", "receive:CoinsAttached", format!("probe: {} succeeded with coins attached", op.short())));
+            }
+        }
+    }
     // a fee cycle that is due (fork the clock past the week mark), with coins
     {
         let f = sim.fork();
